@@ -117,7 +117,23 @@ func ruleR161(c *Ctx) {
 	if lookup == nil {
 		problems = append(problems, "the wrapped scope is never consulted: constants and static functions are shadowed by attributes of the same name")
 	} else {
-		// every attribute return that is not under `c == nil` comes after the lookup
+		// no path on which the wrapped scope exists (c != nil) reaches an attribute return without the lookup
+		isNilFact := func(cond ast.Expr, val bool) bool {
+			var facts []Guard
+			expandGuard(cond, val, &facts)
+			for _, gd := range facts {
+				if be, ok := ast.Unparen(gd.Cond).(*ast.BinaryExpr); ok && (be.Op == token.EQL || be.Op == token.NEQ) {
+					x, okx := ast.Unparen(be.X).(*ast.Ident)
+					y, oky := ast.Unparen(be.Y).(*ast.Ident)
+					if okx && oky && y.Name == "nil" && info.ObjectOf(x) == recvObj {
+						if (be.Op == token.EQL) == gd.Val {
+							return true // this edge is taken only if c == nil
+						}
+					}
+				}
+			}
+			return false
+		}
 		inspectNoLit(lit.Body, func(x ast.Node) bool {
 			r, ok := x.(*ast.ReturnStmt)
 			if !ok || len(r.Results) != 2 {
@@ -126,16 +142,12 @@ func ruleR161(c *Ctx) {
 			if _, isLit := ast.Unparen(r.Results[0]).(*ast.CompositeLit); !isLit {
 				return true
 			}
-			nilCase := false
-			for _, gd := range g.Guards(r) {
-				if be, ok := ast.Unparen(gd.Cond).(*ast.BinaryExpr); ok && be.Op == token.EQL && gd.Val {
-					if y, ok := ast.Unparen(be.Y).(*ast.Ident); ok && y.Name == "nil" {
-						nilCase = true
-					}
-				}
-			}
-			if !nilCase && !g.Dominates(lookup, r) {
-				problems = append(problems, "an attribute is returned before the wrapped scope was asked: constants and static functions are shadowed by attributes of the same name")
+			found, _ := g.PathAvoidingEdges(
+				func(n ast.Node) bool { return n == ast.Node(r) },
+				func(n ast.Node) bool { return containsNode(n, func(m ast.Node) bool { return m == ast.Node(lookup) }) },
+				func(cond ast.Expr, val bool) bool { return !isNilFact(cond, val) })
+			if found {
+				problems = append(problems, "an attribute is returned on a path that did not ask the existing wrapped scope: constants and static functions are shadowed by attributes of the same name")
 			}
 			return true
 		})
